@@ -1,6 +1,10 @@
 """C20 - Resource specifications combine monotonically and without side effects
 (spec/Resources.tla, spec/MC_Resources.tla, spec/TraceResources.tla).
 
+0. to_slurm_options is bound as a TOKEN SEQUENCE (Resources!Tok): the harness splits the real string at blanks
+   and '=' and tokenises every value by its shape; which tokens must be there is decided by Resources!
+   RequiredTokens / SlurmOK -- per case of MC_Resources!SlurmUniverse (quantities x extra_args whose keys spell
+   sbatch flags) and, as an observation event, at the end of combinator histories (TraceResources).
 1. Mechanism A.  TLC checks the laws of Resources.tla (combine_max >= every operand by size / duration,
    with_defaults keeps/fills, from_dict(dict(r)) = r, ...) over the universes defined in MC_Resources.tla and
    prints the expected outcome of every case.  The harness renders the token records into the real strings,
@@ -71,6 +75,67 @@ def render_time(t: dict) -> str:
     for v, d in t["f"]:
         parts.append("" if d == 0 else "ab" if d < 0 else str(v).zfill(d))
     return t["pre"] + ":".join(parts) + t["post"]
+
+
+_INT_RE = re.compile(r"-?[0-9]+")
+_GPU_RE = re.compile(r"gpu:(-?[0-9]+)")
+
+
+def tok_optval(v: str) -> dict:
+    """Value of one option token -> the uniform record Resources!OptVal (by the SHAPE of the text only)."""
+    if _INT_RE.fullmatch(v):
+        return {"kind": "int", "i": int(v), "o": [], "s": ""}
+    m = _GPU_RE.fullmatch(v)
+    if m:
+        return {"kind": "gpu", "i": int(m.group(1)), "o": [], "s": ""}
+    if ":" in v:
+        return {"kind": "time", "i": 0, "o": [tok_time(v)], "s": ""}
+    if v[:1].isdigit() or v[:1] == ".":
+        return {"kind": "mem", "i": 0, "o": [tok_mem(v)], "s": ""}
+    return {"kind": "str", "i": 0, "o": [], "s": v}
+
+
+def tok_options(opts: str) -> list[dict]:
+    """The string returned by to_slurm_options -> sequence of Resources!Tok records, in order."""
+    out = []
+    for o in opts.split(" "):
+        if o:
+            flag, _, val = o.partition("=")
+            out.append({"flag": flag, "val": tok_optval(val)})
+    return out
+
+
+def render_optval(v: dict) -> str:
+    k = v["kind"]
+    return (str(v["i"]) if k == "int" else f"gpu:{v['i']}" if k == "gpu" else render_time(v["o"][0]) if k == "time"
+            else render_mem(v["o"][0]) if k == "mem" else v["s"])
+
+
+def render_tok(t: dict) -> str:
+    return f"{t['flag']}={render_optval(t['val'])}"
+
+
+FLAG_FIELD = {"--cpus-per-task": "cpus", "--gres": "gpus", "--nodes": "nodes", "--cpus-per-node": "cpus_per_node",
+              "--mem": "memory", "--time": "time", "--partition": "partition"}
+VAL_KIND = {"cpus": "int", "nodes": "int", "cpus_per_node": "int", "gpus": "gpu", "memory": "mem", "time": "time",
+            "partition": "str"}
+
+
+def _own_val(e: dict, k: str) -> dict:
+    """Classification helper: the option value a set quantity of an Enc record is written as."""
+    kind = VAL_KIND[k]
+    return {"kind": kind, "i": e[k] if kind in ("int", "gpu") else 0, "o": e[k] if kind in ("mem", "time") else [],
+            "s": e[k] if kind == "str" else ""}
+
+
+def missing_token_sig(t: dict, e: dict) -> dict:
+    """Classification (signatures only) of a required token that the real string lacks; e = Enc of the object."""
+    fld = FLAG_FIELD.get(t["flag"])
+    quantity = fld is not None and t["val"]["kind"] == VAL_KIND[fld] and IsSetEnc(e, fld) and not (
+        t["val"]["kind"] == "int" and any(k == t["flag"][2:] and v == t["val"]["i"] for k, v in e["extra"]))
+    keys = {"--" + k for k, _ in e["extra"]}
+    return {"missing": "quantity" if quantity else "extra_arg", "field": fld if quantity else "extra_args",
+            "extra_key_spells_flag": t["flag"] in keys and t["flag"] in FLAG_FIELD}
 
 
 def _opt_int(x: Any) -> Any:
@@ -270,6 +335,44 @@ def check_dict(case: dict) -> list:
     return out
 
 
+def check_slurm(case: dict) -> list:
+    """One case of MC_Resources!SlurmUniverse: every token of `req` (Resources!RequiredTokens) must occur in the
+    tokenised real string; the call must be repeatable and must leave the object alone."""
+    e = case["c"]
+    wit = {"mode": "slurm", "case": case}
+    try:
+        r = build(e)
+    except Exception as ex:  # noqa: BLE001
+        return [({"check": "slurm", "fn": "Resources.__init__", "observed": type(ex).__name__},
+                 f"valid specification rejected: {ex}", wit)]
+    before = snap(r)
+    out = []
+    try:
+        opts = r.to_slurm_options()
+        again = r.to_slurm_options()
+    except Exception as ex:  # noqa: BLE001
+        return [({"check": "slurm", "fn": "Resources.to_slurm_options", "op": "slurm", "kind": "raise",
+                  "exc": type(ex).__name__}, f"to_slurm_options raised {ex!r}", wit)]
+    if not isinstance(opts, str):
+        return [({"check": "slurm", "fn": "Resources.to_slurm_options", "op": "slurm", "kind": "ill_typed_result"},
+                 f"to_slurm_options returned {type(opts).__name__}", wit)]
+    toks = tok_options(opts)
+    for t in case["req"]:
+        if t not in toks:
+            out.append(({"check": "slurm", "fn": "Resources.to_slurm_options", "op": "slurm", "kind": "result",
+                         **missing_token_sig(t, norm_enc(e))},
+                        f"to_slurm_options() = {opts!r} does not contain {render_tok(t)!r} "
+                        f"(extra_args keys that spell a set quantity's flag: {sorted(case['coll'])})", wit))
+    if again != opts:
+        out.append(({"check": "slurm", "fn": "Resources.to_slurm_options", "op": "slurm", "kind": "not_repeatable"},
+                    f"second call returned {again!r}, first {opts!r}", wit))
+    if snap(r) != before:
+        out.append(({"check": "slurm", "fn": "Resources.to_slurm_options", "op": "slurm", "kind": "existing_mutated",
+                     "field": _changed(before, snap(r))},
+                    f"to_slurm_options changed its receiver: {before} -> {snap(r)}", wit))
+    return out
+
+
 def compare_cmax(case: dict, ops: list, res: Any, check: str, fn: str) -> list:
     """Compare a real combine_max result with an exported case; `ops` are the real operand objects."""
     out = []
@@ -434,8 +537,15 @@ def realise(start: list, ops: list) -> dict:
     ev = []
     for o in ops:
         raised = 0
+        opts: list = []
         try:
-            if o["op"] == "update":
+            if o["op"] == "slurm":  # observation: creates nothing
+                new = None
+                text = objs[o["a"][0] - 1].to_slurm_options()
+                if not isinstance(text, str):
+                    raise TypeError("to_slurm_options did not return a string")  # noqa: TRY301
+                opts = tok_options(text)
+            elif o["op"] == "update":
                 new = objs[o["a"][0] - 1].update(**py_kwargs(o["kw"]))
             elif o["op"] == "combine_max":
                 new = Resources.combine_max([objs[i - 1] for i in o["a"]])
@@ -452,9 +562,10 @@ def realise(start: list, ops: list) -> dict:
             exc = type(ex).__name__
         else:
             exc = ""
-            objs.append(new)
+            if new is not None:
+                objs.append(new)
         typed = all(well_typed(x) for x in objs)
-        ev.append({"op": o["op"], "a": o["a"], "kw": o["kw"], "raised": raised, "exc": exc,
+        ev.append({"op": o["op"], "a": o["a"], "kw": o["kw"], "raised": raised, "exc": exc, "opts": opts,
                    "snap": [enc_obj(x) for x in objs] if typed else [], "typed": typed,
                    "same": bool(new is not None and any(new is x for x in objs[:-1]))})
         if not typed:
@@ -480,6 +591,19 @@ def classify_history(tr: dict, reached: int) -> tuple[dict, str]:
     if e["raised"]:
         sig.update(kind="raise", exc=e["exc"])
         return sig, f"{e['op']} raised {e['exc']} where the specification gives a valid result"
+    if e["op"] == "slurm":
+        obj = prev[e["a"][0] - 1]
+        have = {t["flag"]: [] for t in e["opts"]}
+        for t in e["opts"]:
+            have[t["flag"]].append(t["val"])
+        # classification only (TLC has already rejected the event): which quantity's own token is absent
+        lost = [k for k in Q_FIELDS if IsSetEnc(obj, k) and not (k == "gpus" and obj["gpus"] == 0)
+                and _own_val(obj, k) not in have.get(SLURM_FLAG[k], [])]
+        keys = {"--" + k for k, _ in obj["extra"]}
+        sig.update(kind="result", missing="quantity" if lost else "extra_arg", field=lost[0] if lost else "extra_args",
+                   extra_key_spells_flag=bool(keys & set(FLAG_FIELD)), built_by=ev[reached - 2]["op"] if reached >= 2 else "start")
+        return sig, (f"to_slurm_options() of object {e['a'][0]} = {' '.join(render_tok(t) for t in e['opts'])!r} does not "
+                     f"mention everything that is set on {obj}")
     if len(e["snap"]) != len(prev) + 1:
         sig.update(kind="object_count")
         return sig, f"{e['op']} left {len(e['snap'])} objects, expected {len(prev) + 1}"
@@ -514,7 +638,7 @@ def validate_histories(ctx: Ctx, traces: list[dict], name: str, count: bool = Tr
                                                                                   "ops": _ops_of(t)})
     strip = ("ops",)
     sub = [{"start": traces[i]["start"],
-            "ev": [{k: e[k] for k in ("op", "a", "kw", "raised", "snap")} for e in traces[i]["ev"]]} for i in ok_idx]
+            "ev": [{k: e[k] for k in ("op", "a", "kw", "raised", "snap", "opts")} for e in traces[i]["ev"]]} for i in ok_idx]
     rej = validate_traces(ctx, "TraceResources", sub, name, invariants=["InvValid"], strip=strip, chunk=2500,
                           count=count)
     res = dict(direct)
@@ -594,6 +718,7 @@ INVARIANT {invs}
 INVS = {"ctor": "LawScope Emit", "dict": "LawScope LawRoundTrip Emit",
         "cmax": "LawScope LawCombineMaxGE LawCombineMaxTight LawCombineMaxOrderFree LawTimeFormatFree Emit",
         "defaults": "LawScope LawWithDefaults Emit", "update": "LawScope LawUpdateNew Emit",
+        "slurm": "LawScope LawSlurmMentions LawSlurmNoMerge Emit",
         "hist": "LawScope Emit"}
 
 
@@ -660,6 +785,14 @@ def process(job: dict, by: dict[str, list]) -> dict:
                 c = dict(c, keys=[k for k in c["keys"] if k != "mode"])
             v = check_dict(c)
             _acc(res, i, v, c, ["dict", c["c"]], len(c["keys"]) > 2)
+    elif mode == "slurm":
+        for i, c in enumerate(cases):
+            _roundtrip_opt_tokens(c)
+            if corrupt == i:  # one required token gets another value
+                c = dict(c, req=[{"flag": c["req"][0]["flag"] if c["req"] else "--cpus-per-task",
+                                  "val": {"kind": "int", "i": 424242, "o": [], "s": ""}}] + c["req"][1:])
+            v = check_slurm(c)
+            _acc(res, i, v, c, ["slurm", c["c"]], bool(c["coll"]))
     elif mode == "cmax":
         pool = [norm_enc(e) for e in by["POOL"][0]]
         for e in pool:
@@ -758,6 +891,13 @@ def _roundtrip_tokens(e: dict) -> None:
         raise MachineryError(f"time tokeniser does not round-trip {e['time'][0]}")
 
 
+def _roundtrip_opt_tokens(case: dict) -> None:
+    """Tokeniser sanity: rendering an exported option token and tokenising the text gives the token back."""
+    for t in case["req"]:
+        if tok_options(render_tok(t)) != [t]:
+            raise MachineryError(f"option tokeniser does not round-trip {t}")
+
+
 def run_jobs(ctx: Ctx, jobs: list[dict], nproc: int = 16) -> list[dict]:
     for j in jobs:
         j["wd"] = str(ctx.workdir("mc_" + _job_name(j) + ("_st" if "corrupt" in j else "")))
@@ -800,7 +940,8 @@ def plan(quick: bool) -> list[dict]:
         cmax("mixed2", 1, 2, 2, keep=True)
         nd = 6
     jobs += [{"mode": "defaults", "thorough": th, "shard": sh, "nshards": nd} for sh in range(nd)]
-    jobs += [{"mode": "dict", "thorough": th}, {"mode": "update", "thorough": th}, {"mode": "ctor", "thorough": th}]
+    jobs += [{"mode": "dict", "thorough": th}, {"mode": "slurm", "thorough": th}, {"mode": "update", "thorough": th},
+             {"mode": "ctor", "thorough": th}]
     return jobs
 
 
@@ -855,17 +996,37 @@ def random_history(rng: random.Random, starts: list, n: int) -> tuple[list, list
     return start, ops
 
 
+def with_observations(rng: random.Random, start: list, ops: list) -> list:
+    """Interleave to_slurm_options observations of live objects into a call sequence (they create nothing, so the
+    ids used by the other calls stay what they were) and end with an observation of the newest object."""
+    ev = realise(start, ops)["ev"]
+    out = []
+    alive = len(start)
+    for k, o in enumerate(ops):
+        out.append(o)
+        if k < len(ev):
+            alive = len(ev[k]["snap"]) or alive
+        if rng.random() < 0.35:
+            out.append({"op": "slurm", "a": [rng.randint(1, alive)], "kw": []})
+    out.append({"op": "slurm", "a": [alive], "kw": []})
+    return out
+
+
 def run(ctx: Ctx) -> None:
     quick = ctx.tier == "quick"
     rng = random.Random(ctx.seed)
     ctx.rule = (
         "case = one call of the real Resources API on operands taken from a universe defined in MC_Resources.tla: "
         "ctor (constructor arguments incl. invalid integers, exclusion violations, malformed memory/time strings), "
-        "dict (dict/from_dict/to_slurm_options of every valid record), cmax (every operand list of length 1..3, "
+        "dict (dict/from_dict/to_slurm_options of every valid record), slurm (to_slurm_options as a token sequence: every "
+        "valid integer pattern x memory x time x partition x extra_args whose keys are generic or spell the sbatch flag of a "
+        "quantity: gres, mem, time, partition, nodes, cpus-per-task, cpus-per-node), cmax (every operand list of length 1..3, "
         "thorough 4 for mem/time, over the pools ints / mem {B..PB}x{1,1.5,2,10,512,1000} / time (12 strings in the 4 formats) / "
         "timex (67 strings: hour forms 0..99 h against day forms 0..3 days around every day boundary, lists of 1..2, "
         "thorough 3) / mixed), defaults (receiver x defaults), update (receiver x kwargs), hist (every combinator call sequence "
-        "of length Depth, plus seeded random longer ones); non-trivial = ctor: some argument set; cmax: two "
+        "of length Depth; scenario slurm: Depth-1 calls over objects with flag-named extra_args, then one to_slurm_options "
+        "observation validated by TLC; plus seeded random longer ones with interleaved observations); non-trivial = slurm: "
+        "some extra_args key spells the flag of a set quantity; ctor: some argument set; cmax: two "
         "operands set the same quantity differently; defaults: some quantity set on both sides and some only on "
         "the defaults; update: at least one keyword; hist: every sequence")
     ctx.assumptions = [
@@ -877,12 +1038,19 @@ def run(ctx: Ctx) -> None:
         "out of scope (not in any universe): lower-case units, more than 3 fractional digits, three or more hour "
         "digits, two or more day digits, minute/second values above 59, non-string / non-integer argument types",
         "a gpus=0 request needs no SLURM option",
+        "to_slurm_options: only the PRESENCE of every required token (flag=value of each set quantity and of each extra_args "
+        "entry) is demanded; token order, further tokens and how sbatch treats a repeated flag are not decided; option "
+        "values are tokenised by shape (integer, gpu:N, time with ':', memory starting with a digit, other text)",
     ]
     jobs = plan(quick)
     # histories: every call sequence of length 2 is validated by TLC; the thorough tier adds every sequence of
     # length 3 (all replayed with snapshot comparison, a seeded tenth of them validated by TLC)
     jobs.append({"mode": "hist", "depth": 2, "thorough": not quick, "shard": 0, "nshards": 1, "workers": 2,
                  "seed": ctx.seed, "tlc_fraction": (1, 1)})
+    # scenario "slurm": Depth-1 combinator calls over objects whose extra_args spell sbatch flags, then one
+    # to_slurm_options observation of a live object (quick: every sequence of 1 call + observation, thorough: 2)
+    jobs.append({"mode": "hist", "pool": "slurm", "depth": 2 if quick else 3, "thorough": not quick, "shard": 0,
+                 "nshards": 1, "workers": 2, "seed": ctx.seed, "tlc_fraction": (1, 1)})
     if not quick:
         jobs[:0] = [{"mode": "hist", "depth": 3, "thorough": True, "shard": sh, "nshards": 5, "workers": 2,
                      "seed": ctx.seed, "tlc_fraction": (1, 10)} for sh in range(5)]  # one start configuration each
@@ -901,6 +1069,7 @@ def run(ctx: Ctx) -> None:
         job = r["job"]
         ctx.add_tlc(r["tlc"], "MC_Resources " + _job_name(job))
         name = job["mode"] + (f":{job['pool']}^{job['minops']}..{job['nops']}" if job["mode"] == "cmax" else
+                              f":{job['pool']}:depth{job['depth']}" if job["mode"] == "hist" and job.get("pool") else
                               f":depth{job['depth']}" if job["mode"] == "hist" else "")
         counts[name] = counts.get(name, 0) + r["n"]
         if job["mode"] == "hist":
@@ -937,8 +1106,10 @@ def run(ctx: Ctx) -> None:
     starts = sorted({json.dumps(t["start"], sort_keys=True) for t in traces})
     rstarts = [json.loads(x) for x in starts]
     rtraces = []
+    obs_rng = random.Random(f"{ctx.seed}|observations")
     for _ in range(nrand):
         st, ops = random_history(rng, rstarts, 6 if quick else 8)
+        ops = with_observations(obs_rng, st, ops)
         rtraces.append(realise(st, ops))
         ctx.case(["rhist", ops, st], nontrivial=True)
     t1 = _t.time()
@@ -982,7 +1153,7 @@ def selftest_binding(ctx: Ctx, results: list[dict], traces: list[dict], rej: dic
     """(a) alter one expected value of one exported case per universe kind: the comparator must flag exactly that
     case; (b) alter one logged field of one recorded history: TLC must reject exactly that trace at that call."""
     import copy
-    for mode in ("ctor", "dict", "cmax", "defaults", "update"):
+    for mode in ("ctor", "dict", "slurm", "cmax", "defaults", "update"):
         cands = [r for r in results if r["job"]["mode"] == mode and "st" in r
                  and (mode != "cmax" or r["job"]["pool"] == "ints")]
         if not cands:
@@ -1016,6 +1187,21 @@ def selftest_binding(ctx: Ctx, results: list[dict], traces: list[dict], rej: dic
     got = validate_histories(ctx, sample, "selftest", count=False)
     ctx.selftest("trace corruption (extra_args entry added to object 1 at call 2)", got == {victim: 2},
                  f"rejections={got} expected={{{victim}: 2}}")
+    # (c) drop one logged token of one to_slurm_options observation: TLC must reject exactly that event
+    obs = [i for i, t in enumerate(traces) if i not in rej and t["ev"][-1]["op"] == "slurm" and t["ev"][-1]["opts"]][:12]
+    if len(obs) < 3:
+        if not rej:
+            raise MachineryError("binding self-test: no accepted history ending in a non-empty observation")
+        ctx.selftests.append({"name": "observation corruption", "ok": True,
+                              "detail": "skipped: fewer than 3 accepted observations (the run reports violations)"})
+        return
+    sample = copy.deepcopy([traces[i] for i in obs])
+    victim = len(sample) // 2
+    dropped = sample[victim]["ev"][-1]["opts"].pop(0)
+    got = validate_histories(ctx, sample, "selftest_obs", count=False)
+    want = {victim: len(sample[victim]["ev"])}
+    ctx.selftest(f"observation corruption (token {render_tok(dropped)} removed from a logged to_slurm_options result)",
+                 got == want, f"rejections={got} expected={want}")
 
 
 # ------------------------------------------------------------------------------------------------
@@ -1026,6 +1212,8 @@ def replay(rep: dict) -> int:
         v = check_ctor(w["case"])
     elif mode == "dict":
         v = check_dict(w["case"])
+    elif mode == "slurm":
+        v = check_slurm(w["case"])
     elif mode == "cmax":
         ops = w["operands"]
         v = check_cmax(dict(w["case"], c=list(range(1, len(ops) + 1))), [norm_enc(o) for o in ops])
